@@ -1,5 +1,5 @@
-import Hdc.Gen.Kernels
-import Hdc.Lemmas.Ws2dGen
+import Hdc.Gen.KernelsBase
+import Hdc.Lemmas.ArrCommon
 /-
 Generic lemmas for the refinement proofs "generated translation of a loop kernel = hand model"
 (Hdc/Props/GenKernels.lean): `rd` / `wr` / `pyRange` / `whereEq` / `pySlice` of `Hdc.Gen.Kernels`
